@@ -6,21 +6,33 @@
 (* (one file per distinct terminal history).                                       *)
 EXTENDS TreeSync, VerifEmit
 
-CONSTANT GenDepth      \* a behaviour is emitted when it is quiescent or has this many steps
+CONSTANTS GenDepth,    \* a behaviour is emitted when it is quiescent or has this many steps
+          RankIds      \* TRUE: the position of every new change id in the lexical order of all ids is
+                       \* chosen nondeterministically (the harness mines a real id with that rank).
+                       \* The specification does not depend on the id order - the implementation
+                       \* must not either (head-set comparisons, reduceTree's first head, ...), so
+                       \* this only widens the input space the replay explores.
 
-VARIABLE hist
+VARIABLES hist,
+          rank         \* all ids in ascending lexical order of the real ids
 ASSUME EmitReset
 
 Proj(r) == [heads |-> heads[r], stored |-> stored[r], root |-> root[r], attached |-> attached[r]]
 AllProj == [r \in Replicas |-> Proj(r)]
 
-GenInit == Init /\ hist = <<>>
+InsertAt(s, i, x) == SubSeq(s, 1, i - 1) \o <<x>> \o SubSeq(s, i, Len(s))
+
+GenInit == Init /\ hist = <<>> /\ rank = <<Root>>
 GenNext == /\ Len(hist) < GenDepth
            /\ Next
-           /\ hist' = Append(hist, [last |-> last', st |-> AllProj'])
-GenSpec == GenInit /\ [][GenNext]_<<vars, hist>>
+           /\ IF last'.act = "AddContent"
+                THEN \E pos \in (IF RankIds THEN 1..(Len(rank) + 1) ELSE {Len(rank) + 1}) :
+                        rank' = InsertAt(rank, pos, last'.id)
+                ELSE rank' = rank
+           /\ hist' = Append(hist, [last |-> last', st |-> AllProj', rank |-> rank'])
+GenSpec == GenInit /\ [][GenNext]_<<vars, hist, rank>>
 
-Behaviour == [spec |-> "TreeSync", replicas |-> Replicas, absent |-> Absent, steps |-> hist,
+Behaviour == [spec |-> "TreeSync", replicas |-> Replicas, absent |-> Absent, mine |-> RankIds, steps |-> hist,
               quiescent |-> Quiescent, changes |-> changes]
 Emit == EmitWhen(NumCreated > 0 /\ (Quiescent \/ Len(hist) = GenDepth), Behaviour)
 =============================================================================
